@@ -48,3 +48,60 @@ fn enc_into(v: &Value, out: &mut String) {
         }
     }
 }
+
+/// inverse of `enc` over a token stream (floats are rebuilt from their bit patterns, never from text)
+pub fn dec<'a, I: Iterator<Item = &'a str>>(toks: &mut I) -> Option<Value> {
+    let t = toks.next()?;
+    match t {
+        "z" => Some(Value::Null),
+        "t" => Some(Value::Bool(true)),
+        "f" => Some(Value::Bool(false)),
+        "n" => {
+            let lex = unhex(toks.next()?)?;
+            let bits: u64 = toks.next()?.parse().ok()?;
+            if let Ok(u) = lex.parse::<u64>() {
+                Some(Value::from(u))
+            } else if let Ok(i) = lex.parse::<i64>() {
+                Some(Value::from(i))
+            } else {
+                serde_json::Number::from_f64(f64::from_bits(bits)).map(Value::Number)
+            }
+        }
+        "s" => Some(Value::String(unhex(toks.next()?)?)),
+        "a" => {
+            let n: usize = toks.next()?.parse().ok()?;
+            let mut v = Vec::with_capacity(n);
+            for _ in 0..n {
+                v.push(dec(toks)?);
+            }
+            Some(Value::Array(v))
+        }
+        "o" => {
+            let n: usize = toks.next()?.parse().ok()?;
+            let mut m = serde_json::Map::new();
+            for _ in 0..n {
+                let k = unhex(toks.next()?)?;
+                let v = dec(toks)?;
+                m.insert(k, v);
+            }
+            Some(Value::Object(m))
+        }
+        _ => None,
+    }
+}
+
+pub fn unhex(t: &str) -> Option<String> {
+    let b = t.as_bytes();
+    if b.first() != Some(&b'x') || b.len() % 2 != 1 {
+        return None;
+    }
+    let mut out = Vec::with_capacity(b.len() / 2);
+    let mut i = 1;
+    while i < b.len() {
+        let h = (b[i] as char).to_digit(16)?;
+        let l = (b[i + 1] as char).to_digit(16)?;
+        out.push((h * 16 + l) as u8);
+        i += 2;
+    }
+    String::from_utf8(out).ok()
+}
